@@ -35,10 +35,14 @@ def mixed(text, extra_note=""):
 
 
 CHECKS.update({
-    "C01": mixed("contract obligations on the compiled layers' kernels (sum: column h*Ki+i <-> unit i of input h; hadamard; kronecker first-input-major; "
-                 "embedding / categorical / gaussian / binomial / constant / evidence forward; output shape (F, B, K); fold- and batch-pointwise) for all "
-                 "sizes incl. batch == folds, in the linear semiring; compilation wiring, address book and the log-space semirings are covered only by "
-                 "the bounded stand-in (compiled circuits vs the reference interpreter on generated circuits x semirings x flags x batch sizes)"),
+    "C01": mixed("contract obligations: wiring of _compile_circuit / compile_parameter on templates (each layer / node compiled once in topological order, "
+                 "inputs mirrored in order, outputs in declared order, registration); every layer compilation rule (kind, integers, compiler's semiring, scope "
+                 "index = variable id, same-named parameters); the compiled layers' kernels (sum: column h*Ki+i <-> unit i of input h; hadamard; kronecker "
+                 "first-input-major; embedding / categorical / gaussian / binomial / constant / evidence; shape (F, B, K); fold- and batch-pointwise, also for "
+                 "batch == folds) in the linear semiring; the address-book entry (decode through prefix sums of fold counts, shortcuts only for the identity) for "
+                 "F x H <= 4 and every module pattern; frame: evaluation never updates a possibly aliased tensor in place; the log-space semirings' max-shift, "
+                 "LayerAddressBook.lookup and arbitrary DAGs are covered only by the bounded stand-in (compiled circuits vs the reference interpreter on "
+                 "generated circuits x semirings x flags x batch sizes)"),
     "C02": mixed("contract obligations: fold_settings 2-safety (equal fold settings imply equal configuration) and rebuild-from-config for every "
                  "parameter node and for tensor parameters (shape, requires_grad, dtype); the einsum optimisation rule equals ReduceSum o OuterProduct "
                  "for every rank <= 4 and dim pair; fold-pointwise kernels (shared with C14); flag-independence end-to-end (grouping, address book, graph "
@@ -64,9 +68,11 @@ CHECKS.update({
                  "polynomial / sum, carried over for categorical / gaussian incl. log_partition) for complex and real operands and for references into "
                  "operand tensors; functional.conjugate on four templates x four input kinds; numeric clause conj(c) incl. conjugate of derived circuits by "
                  "the bounded stand-in"),
-    "C08": bounded("structural predicates against an independent set-based oracle on random (also non-smooth / non-decomposable) circuits, "
-                   "with the 2-safety clauses checked by re-running on permuted / renamed / swapped inputs; only the refusal consequences of is_smooth / "
-                   "is_decomposable on two bad templates are contract obligations (under C09)"),
+    "C08": mixed("contract obligations on circuit templates whose variable ids are symbolic and NOT assumed distinct (every equality pattern of the ids "
+                 "is explored): is_smooth / is_decomposable iff their definitions (arity 3 and 4 products: ALL pairs; sums; a product over a non-smooth sum in "
+                 "both input orders), is_structured_decomposable and are_compatible sound w.r.t. 'same scope => same set of sub-scopes', are_compatible symmetric "
+                 "and independent of product-input order; arbitrary circuits (incl. empty scopes, renaming of variables) by the bounded stand-in against an "
+                 "independent set-based oracle"),
     "C09": mixed("contract obligations: integrate / differentiate / multiply refuse a non-smooth and a non-decomposable (non-adjacent overlap in an "
                  "arity-3 product) template with StructuralPropertyError; integrate and evidence refuse empty / foreign variable sets, differentiate and the "
                  "polynomial rule refuse orders <= 0, rules refuse foreign scopes (ValueError); result scope / output order clauses of C03/C06/C07 templates; "
@@ -83,8 +89,12 @@ CHECKS.update({
                  "declared axis, mixing-weight expansion per fold); that every template's sum layers receive normalised weights and Z = 1 before / after "
                  "updates is a bounded stand-in over template arguments and three parameter states",
                  "; 'finite in log space' is a floating point statement checked only on the sampled inputs"),
-    "C16": bounded("every region-graph algorithm over small argument spaces: independent validator, structured-decomposability flag "
-                   "vs set definition, dump/load round trip, build_circuit with the three abstractions and with explicit factories"),
+    "C16": mixed("contract obligations on region-graph templates with symbolic, possibly coinciding ids: RegionGraph(...) returning normally implies "
+                 "validity (children of a partition pairwise disjoint and covering it, partitions of a region share its scope, one parent per partition), empty "
+                 "scopes refused; is_structured_decomposable iff partitions with equal scope - also under different region nodes - split alike; "
+                 "is_omni_compatible iff all child regions univariate; the algorithms (numpy / random / image grids / Chow-Liu), dump / load and build_circuit "
+                 "are covered by the bounded stand-in only (every algorithm over small argument spaces, independent validator, round trip, three abstractions "
+                 "and explicit factories)"),
     "C15": ("other", "structural clauses (shape, columns filled from the variable's input layer, support) and the distributional clause are a "
             "BOUNDED, seeded statistical stand-in: 20000 samples per circuit against exact probabilities with 6.5-sigma cell thresholds; no contract "
             "within reach decides convergence of empirical frequencies; one recorded known finding (optimized Tucker layers refuse to sample)",
@@ -104,9 +114,11 @@ CHECKS.update({
             "load_state_dict(strict) -> equal outputs for base and derived circuits under the four flag settings",
             PROOF_NOTE + " || " + BOUNDED_NOTE + "; torch.save/torch.load and nn.Module.state_dict/load_state_dict are trusted",
             "syntactic frame obligations on the real source + bounded native round-trip check", "4/C19"),
-    "C20": bounded("tensor-factorisation templates against explicit numpy contractions of their factor tensors (tensor-train: reference interpreter + "
-                   "TT-rank of every unfolding), PGM templates against per-variable tables and per-variable arguments, logic circuits (ordered "
-                   "decision formulas) against truth tables and model counts"),
+    "C20": mixed("contract obligations: cp / tucker circuits for tensor orders 2-4 (factor j over variable j with shape[j] states and rank units, product "
+                 "over all factors in mode order - Kronecker for tucker with rank**n units -, unweighted cp sums with constant ones), hmm for 12 orderings of "
+                 "1-4 variables (chain follows the ordering, the input layer of variable v gets the arguments listed for v, latent units, one output unit, "
+                 "non-permutations refused), fully_factorized; the numeric identities against explicit contractions / forward algorithm, tensor_train (numpy / "
+                 "scipy) and the logic-circuit templates are covered by the bounded stand-in"),
 })
 
 NOT_APPLICABLE = [
